@@ -289,3 +289,37 @@ func VH_SEQ_MinerPayouts() {
 		vh.Reach("accepted")
 	}
 }
+
+// v1 per-signature timelock: a signature counts only from its timelock height on,
+// measured at the height of the block containing the transaction, and exactly
+// at that height it does count
+func VH_SEQ_V1SigTimelock() {
+	_, s := vhWorld("w")
+	var t types.Transaction
+	t.SiacoinInputs = make([]types.SiacoinInput, 1)
+	t.SiacoinOutputs = make([]types.SiacoinOutput, 1)
+	t.Signatures = make([]types.TransactionSignature, 1)
+	t.SiacoinInputs[0].UnlockConditions.PublicKeys = []types.UnlockKey{{Key: make([]byte, 32)}}
+	t.Signatures[0].Signature = make([]byte, 64)
+	vh.Fill("t", &t)
+	t.SiacoinInputs[0].UnlockConditions.PublicKeys[0].Algorithm = types.SpecifierEd25519
+	t.SiacoinInputs[0].UnlockConditions.SignaturesRequired = 1
+	t.Signatures[0].CoveredFields = types.CoveredFields{WholeTransaction: true}
+	var ts V1TransactionSupplement
+	ts.SiacoinInputs = make([]types.SiacoinElement, 1)
+	vh.Fill("supp", &ts)
+	ts.SiacoinInputs[0].ID = vh.GenuineID("supp.sc0")
+	vhGenuineV1(s, ts)
+	err := ValidateTransaction(NewMidState(s), t, ts)
+	h := s.childHeight()
+	vh.Assert(vh.Implies(err == nil, vh.And(t.Signatures[0].Timelock <= h, t.SiacoinInputs[0].UnlockConditions.Timelock <= h)), "v1 signature or unlock conditions accepted before their timelock")
+	if err == nil {
+		vh.Reach("accepted")
+		if t.Signatures[0].Timelock == h {
+			vh.Reach("accepted-at-sig-bound")
+		}
+		if t.SiacoinInputs[0].UnlockConditions.Timelock == h {
+			vh.Reach("accepted-at-uc-bound")
+		}
+	}
+}
